@@ -525,7 +525,10 @@ PROPS = {
         "technique": "property-based testing: generated programs + schedules + generated reads-from choices under a view-based weak memory model, vector-clock race detection, linearizability with happens-before precedence",
         "rule": "case = (harness, configuration, program, schedule, reads-from decisions, spurious weak-CAS failures) with staleness window W=16 "
                 "(thorough: 16, 64, 256), stale-read probability 5-50% per case, production and TSan memory-order variants. Oracles: data race "
-                "on heap data (incl. free-as-write), use-after-free, guard registry, lifecycle, canary, linearizability with hb precedence. "
+                "on heap data (incl. free-as-write), use-after-free, guard registry, lifecycle, canary, linearizability with hb precedence of the operations that change the container (successful "
+                "pushes/pops, insertions/removals) plus the final drain/iteration; verdicts that change nothing (empty/full, absent, already present, "
+                "looked-up values) are not forced into one total order in weak mode - a value must have been inserted for that key, and 'absent although "
+                "an insertion that nothing can undo happens-before' is checked directly. "
                 "Non-trivial: as the owning property, and the run counts cases in which at least one load returned a non-newest store "
                 "(cases_with_stale_read). Distinct: program + history.",
         "nontrivial_floor": 0.05,
